@@ -49,6 +49,21 @@ CLAIMED = {
         'note': TB + ' Does not decide torn-read freedom beyond "atomics + xor validation are in place" (memory-model argument).',
         'technique': 'custom static analysis: who-may-access + index provenance + sibling/inverse agreement + constant evaluation over finite parameter domains with a loop-idiom lemma',
     },
+    'C09': {
+        'text': 'Clause-limited static decision (level "other"): one frozen discipline table over every field of the shared classes '
+                '(Notifier, Communicator, WorkerThread, EngineMainThread, EngineControl, ThreadPool, the Search time-limit block, TT slots, '
+                'book-builder scheduler); each row is mechanically checked - mutex rows by must-held lock-set analysis at every access, atomic '
+                'rows by the declared field type, confinement rows by thread-role reachability in a role-specific call graph (handler-object '
+                'and receiver-class sensitive, premises checked), publication rows by dominance (start parameters before `search = true` under '
+                'the mutex, stopThread before protocol state, workers initialised before use, table geometry/generation only before hand-over, '
+                'contempt hash by thread 0 only) - plus completeness (a new field without a row fails) and a frozen set of static-storage '
+                'variables written after start-up. Right level: race freedom quantifies over all interleavings; a discipline check is '
+                'interleaving-independent and covers code paths a TSan run never executes. It decides the discipline, not the memory-model '
+                'theorem: rows justified by message-protocol ordering are listed as assumptions.',
+        'design_ref': 'DESIGN.md section 2, C09 and Appendix A',
+        'note': TB + ' Does not decide race freedom in the C++ memory-model sense for the whole engine; HB-protocol rows are assumptions (listed in the evidence).',
+        'technique': 'custom static analysis: lock-set dataflow (K6), field-type obligations (K7), thread-role call-graph reachability (K8), dominance-based publication checks (K2), frozen who-may-write table for static storage (K5)',
+    },
     'C10': {
         'text': 'Clause-limited static decision (level "other"), schedule-independent: (1) every condition-variable wait of the program is in '
                 'a predicate loop (or is a timed poll that tests first), its predicate fields are written only under the same mutex, and every '
